@@ -230,6 +230,9 @@ func (d *db) removeAllLocked(shardID uint64, replicaID uint64, newLog bool) erro
 	}
 	index := d.mu.nodeStates.getIndex(shardID, replicaID)
 	index.removeAll()
+	// forget the cached state as well, otherwise an identical state saved after
+	// the removal is considered as unchanged and skipped
+	d.mu.nodeStates.setState(shardID, replicaID, pb.State{})
 	v := d.mu.versions.currentVersion()
 	ve := versionEdit{
 		deletedFiles: make(map[deletedFileEntry]*fileMetadata),
